@@ -183,6 +183,22 @@ manual_schema!(ZeroProps, BTreeMap<String, u8>, "ZeroProps", || SchemaObject {
     object: Some(Box::new(ObjectValidation { max_properties: Some(0), ..Default::default() })),
     ..Default::default()
 });
+/// two different types that schemars gives the same name
+pub mod samename_a {
+    use super::*;
+    #[derive(Serialize, Deserialize, JsonSchema)]
+    pub struct Same {
+        pub name: String,
+    }
+}
+pub mod samename_b {
+    use super::*;
+    #[derive(Serialize, Deserialize, JsonSchema)]
+    pub struct Same {
+        pub id: u32,
+        pub labels: Vec<String>,
+    }
+}
 /// defaults that are `null`
 #[derive(Serialize, Deserialize, JsonSchema, Default)]
 pub struct OptNewtype(pub Option<u8>);
